@@ -29,9 +29,10 @@ OUT="$VERIF/build/$FLAV/$H"
 mkdir -p "$VERIF/build/$FLAV"
 exec 9>"$VERIF/build/$FLAV/.lock"
 flock 9
-if [ -f "$OUT/libcsd.a" ] && [ -f "$OUT/.ok" ]; then echo "$OUT"; exit 0; fi
-# drop builds of other trees of this flavour (disk is limited)
-find "$VERIF/build/$FLAV" -mindepth 1 -maxdepth 1 -type d ! -name "$H" -exec rm -rf {} + 2>/dev/null || true
+if [ -f "$OUT/libcsd.a" ] && [ -f "$OUT/.ok" ]; then touch "$OUT"; echo "$OUT"; exit 0; fi
+# keep only the three most recently used builds of other trees of this flavour (disk is limited; a check on another
+# tree may still be running from one of them)
+ls -1dt "$VERIF/build/$FLAV"/*/ 2>/dev/null | grep -v "/$H/" | tail -n +4 | xargs -r rm -rf
 rm -rf "$OUT"; mkdir -p "$OUT/obj"
 
 # source lists: every "*.cpp" token of the two CMakeLists that is inside a set(..._srcs ...) block
